@@ -19,6 +19,8 @@ type Scenario struct {
 	Invariant func() string           // optional state invariant, evaluated at every step inside the window
 	MaxSteps  int
 	MapDesc   bool
+	PreemptIn []string // see Config.PreemptIn
+	PreemptionBounding bool
 }
 
 // Issue is an oracle complaint about one execution.
@@ -87,7 +89,7 @@ func RunOnce(sc *Scenario, choices []int, selectCost int) *Result {
 	if sc.Reset != nil {
 		sc.Reset()
 	}
-	return Run(Config{Prefix: choices, MaxSteps: sc.MaxSteps, Invariant: sc.Invariant, SelectCost: selectCost, MapDesc: sc.MapDesc}, sc.Body)
+	return Run(Config{Prefix: choices, MaxSteps: sc.MaxSteps, Invariant: sc.Invariant, SelectCost: selectCost, MapDesc: sc.MapDesc, PreemptIn: sc.PreemptIn, PreemptionBounding: sc.PreemptionBounding}, sc.Body)
 }
 
 // EventNames renders the events of a result.
